@@ -194,6 +194,20 @@ fn one(round: bool, u: U, ty: TyK, n: i64, tod: i64) -> T {
     T { round, u, ty, n, tod, n2: 0, tod2: 0, mono: false }
 }
 
+/// cases evaluated as the first library call of a fresh thread and (leg `cold`) of a fresh process
+pub fn cold_list(round: bool) -> Vec<T> {
+    let mut v = vec![];
+    for u in UNITS {
+        for n in [0i64, 3, -1, 1, MIN_DAY as i64 + 10, MAX_DAY as i64 - 400, 11_016] {
+            v.push(one(round, u, TyK::Date, n, 0));
+            v.push(one(round, u, TyK::Ts, n, 43_200_000_000));
+            v.push(one(round, u, TyK::Ts, n, 0));
+            v.push(one(round, u, TyK::Ora, n, 41_000_000));
+        }
+    }
+    v
+}
+
 pub fn run(ctx: &Ctx, st: &mut Stats, round: bool) {
     cal();
     let check: fn(&mut Stats, &T) = if round { check_round } else { check_trunc };
@@ -272,18 +286,7 @@ pub fn run(ctx: &Ctx, st: &mut Stats, round: bool) {
             }
         }
     });
-    cold_threads(st, "history: first call on a fresh thread", {
-        let mut v = vec![];
-        for u in UNITS {
-            for n in [0i64, 3, -1, 1, MIN_DAY as i64 + 10, MAX_DAY as i64 - 400, 11_016] {
-                v.push(one(round, u, TyK::Date, n, 0));
-                v.push(one(round, u, TyK::Ts, n, 43_200_000_000));
-                v.push(one(round, u, TyK::Ts, n, 0));
-                v.push(one(round, u, TyK::Ora, n, 41_000_000));
-            }
-        }
-        v
-    }, check);
+    cold_threads(st, "history: first call on a fresh thread", cold_list(round), check);
     if round {
         // bridge the excluded century-end years: last day of year ..99 against first day of year ..01
         st.stratum("Date: century monotonicity across excluded years", true);
